@@ -177,10 +177,10 @@ pub proof fn theorem_all_histories(tr: Seq<(StoreView, Ledger)>, evs: Seq<Ev>)
 
 /// C06: exactly one pending batch with the highest id, and C03 (second half): the contract's own LST balance is
 /// the pending batch total plus refunded LST transfers - at every point of every history
-// [C06.all-histories] [C03.lst-balance-all-histories]
+// [C06.all-histories] [C03.lst-balance-all-histories] [C16.status-fields-all-histories]
 pub proof fn theorem_batch_table(tr: Seq<(StoreView, Ledger)>, evs: Seq<Ev>)
-    requires history(tr, evs), invb(tr[0].0), inv3b(tr[0].0, tr[0].1),
-    ensures forall|i: int| 0 <= i < tr.len() ==> invb((#[trigger] tr[i]).0) && inv3b(tr[i].0, tr[i].1),
+    requires history(tr, evs), invb(tr[0].0), inv3b(tr[0].0, tr[0].1), inv_status(tr[0].0),
+    ensures forall|i: int| 0 <= i < tr.len() ==> invb((#[trigger] tr[i]).0) && inv3b(tr[i].0, tr[i].1) && inv_status(tr[i].0),
     decreases evs.len(),
 {
     if evs.len() > 0 {
@@ -197,16 +197,16 @@ pub proof fn theorem_batch_table(tr: Seq<(StoreView, Ledger)>, evs: Seq<Ev>)
         let s0 = tr[n - 1].0; let s1 = tr[n].0; let l0 = tr[n - 1].1;
         assert(ev_dom(tr[n - 1].0, evs[n - 1]) && ev_step(tr[n - 1].0, tr[n - 1].1, evs[n - 1], tr[n].0, tr[n].1));
         match evs[n - 1] {
-            Ev::Unstake { info, amount, ms } => { lemma_invb_unstake(s0, info, amount, s1, ms); lemma_lst_unstake(s0, info, amount, s1, ms, l0); }
-            Ev::Submit { env, ms } => { lemma_invb_submit(s0, env, s1, ms); lemma_lst_submit(s0, env, s1, ms, l0); }
-            Ev::Unstaked { env, info, batch_id, ms } => { lemma_invb_unstaked(s0, env, info, batch_id, s1, ms); lemma_lst_unstaked(s0, env, info, batch_id, s1, ms, l0); }
+            Ev::Unstake { info, amount, ms } => { lemma_invb_unstake(s0, info, amount, s1, ms); lemma_lst_unstake(s0, info, amount, s1, ms, l0); lemma_status_unstake(s0, info, amount, s1, ms); }
+            Ev::Submit { env, ms } => { lemma_invb_submit(s0, env, s1, ms); lemma_lst_submit(s0, env, s1, ms, l0); lemma_status_submit(s0, env, s1, ms); }
+            Ev::Unstaked { env, info, batch_id, ms } => { lemma_invb_unstaked(s0, env, info, batch_id, s1, ms); lemma_lst_unstaked(s0, env, info, batch_id, s1, ms, l0); lemma_status_unstaked(s0, env, info, batch_id, s1, ms); }
             Ev::Stake { .. } => { }
             Ev::Rewards { .. } => { }
             Ev::Withdraw { .. } => { }
             Ev::FeeWithdraw { .. } => { }
             _ => { assert(s1.batches == s0.batches && s1.pending_batch_id == s0.pending_batch_id); }
         }
-        assert forall|i: int| 0 <= i < tr.len() implies invb((#[trigger] tr[i]).0) && inv3b(tr[i].0, tr[i].1) by {
+        assert forall|i: int| 0 <= i < tr.len() implies invb((#[trigger] tr[i]).0) && inv3b(tr[i].0, tr[i].1) && inv_status(tr[i].0) by {
             if i < n { assert(tr0[i] == tr[i]); }
         }
     }
@@ -216,7 +216,7 @@ pub proof fn theorem_batch_table(tr: Seq<(StoreView, Ledger)>, evs: Seq<Ev>)
 /// at every point of every history
 // [C05.request-sums-all-histories]
 pub proof fn theorem_request_sums(tr: Seq<(StoreView, Ledger)>, evs: Seq<Ev>)
-    requires history(tr, evs), invb(tr[0].0), inv3b(tr[0].0, tr[0].1), inv5(tr[0].0),
+    requires history(tr, evs), invb(tr[0].0), inv3b(tr[0].0, tr[0].1), inv_status(tr[0].0), inv5(tr[0].0),
     ensures forall|i: int| 0 <= i < tr.len() ==> inv5((#[trigger] tr[i]).0),
     decreases evs.len(),
 {
